@@ -172,6 +172,11 @@ def generated(args):
                 if not np.all(np.isfinite(t)):
                     ev.append({'e': 'Stopped', 'why': 'nonfinite'})
                     continue
+                if np.max(t) > 7000.0:
+                    # beyond the 31-bit range of the temperature quanta
+                    # (2^-18 K): not representable for TLC, not judged
+                    ev.append({'e': 'Stopped', 'why': 'beyond range'})
+                    continue
                 ev += pin_events(pm, q_lin, [Tc], [h], dz, t)
             except SystemExit:
                 ev.append({'e': 'Stopped', 'why': 'iteration limit'})
